@@ -173,6 +173,7 @@ func shorten(s string) string {
 }
 
 func c06(r *core.Report) {
+	lookupFolding(r, "C06.lookup")
 	p := r.Prog
 	pk := p.Pkg("openapi3filter")
 	info := pk.TypesInfo
@@ -710,4 +711,67 @@ func printSrc(b *strings.Builder, n ast.Node) {
 	var buf bytes.Buffer
 	printer.Fprint(&buf, token.NewFileSet(), n)
 	b.WriteString(buf.String())
+}
+
+// lookupFolding: the keys of the document's maps are the strings written in the document; a lookup
+// that normalises only the incoming key (lower-casing the request's media type) can no longer
+// find an entry whose key is spelled with another case.
+func lookupFolding(r *core.Report, rule string) {
+	p := r.Prog
+	info := p.Pkg("openapi3").TypesInfo
+	r.RunRule(rule, "lookups in the document's maps do not fold the case of the incoming key only: in every method of package openapi3 whose receiver is a map keyed by strings (Content and the other collections) and that indexes the receiver with a key computed from a parameter, the key does not pass through strings.ToLower / ToUpper / ToTitle — the stored keys are spelled as the document spells them (Content.Get is where a request's or response's Content-Type selects the media type entry)", 1, func() {
+		n := 0
+		for _, d := range p.AllDecls("openapi3") {
+			if d.Recv == nil || d.Body == nil || len(d.Recv.List[0].Names) == 0 {
+				continue
+			}
+			recv := info.ObjectOf(d.Recv.List[0].Names[0])
+			mt, ok := recv.Type().Underlying().(*types.Map)
+			if !ok {
+				continue
+			}
+			if b, ok := mt.Key().Underlying().(*types.Basic); !ok || b.Info()&types.IsString == 0 {
+				continue
+			}
+			if d.Type.Params.NumFields() == 0 {
+				continue
+			}
+			dynamic := false
+			ast.Inspect(d.Body, func(nd ast.Node) bool {
+				if ix, ok := nd.(*ast.IndexExpr); ok {
+					if id, ok := ast.Unparen(ix.X).(*ast.Ident); ok && info.ObjectOf(id) == recv {
+						if _, isConst := strConst(info, ix.Index); !isConst {
+							dynamic = true
+						}
+					}
+				}
+				return true
+			})
+			if !dynamic {
+				continue
+			}
+			n++
+			key := "lookup:" + core.FuncName(d)
+			fold := ""
+			ast.Inspect(d.Body, func(nd ast.Node) bool {
+				if c, ok := nd.(*ast.CallExpr); ok {
+					if f := core.CalleeOf(info, c); f != nil && f.Pkg() != nil && f.Pkg().Path() == "strings" {
+						switch f.Name() {
+						case "ToLower", "ToUpper", "ToTitle", "Title":
+							fold = fmt.Sprintf("strings.%s at %s", f.Name(), p.Pos(c.Pos()))
+						}
+					}
+				}
+				return true
+			})
+			if fold != "" {
+				r.Bad(key, p.Pos(d.Pos()), fmt.Sprintf("%s folds the case of the key it looks up (%s) while the receiver's keys stay as written in the document: an entry declared with an upper-case letter (`application/json; charset=UTF-8`, `application/vnd.Acme+json`) is no longer found, and the lookup falls through to a less specific entry or to none", core.FuncName(d), fold))
+			} else {
+				r.OK(key, p.Pos(d.Pos()), "keys are looked up as spelled")
+			}
+		}
+		if n == 0 {
+			core.Fail("no map-receiver method with a computed lookup key found in openapi3 (Content.Get expected)")
+		}
+	})
 }
